@@ -2,6 +2,7 @@ import Uom.Proofs.Exact
 import Uom.Proofs.OpsExact
 import Uom.Proofs.BodyEq.Conv
 import Uom.Proofs.BodyEq.Storage
+import Uom.Proofs.BodyEq.Powi
 /-!
 # C08 — exact storage converts exactly; integer storage truncates toward zero
 
@@ -132,5 +133,38 @@ theorem src_storage (N : NumTy) (env : Env N) (x : Val N) :
   ⟨rfl, rfl, rfl, rfl, rfl, rfl, rfl, rfl⟩
 
 end SourceTie
+
+/-! ### tie to the source: the exact-storage `ConversionFactor::powi` impls regenerated from /repo/src/lib.rs -/
+section SourceTieRx
+open Uom.Rx Uom.Gen.RxBody Uom.BodyEq.Powi
+
+/-- BigInt / BigUint (`Ratio<V>` factors): one for exponent 0, `pow(recip, −e)` below, `pow(self, e)` above -/
+theorem src_powi_bigint {α : Type} (one : α) (recip : α → α) (pow : α → Nat → α) (c : α) (e : Int) :
+    run (envPowi one recip pow) lib_ConversionFactor_V_for_Ratio_powi_BigInt_BigUint [.host c, .int e] =
+      (.val (.host (if e = 0 then one else if e < 0 then pow (recip c) (-e).toNat else pow c e.toNat)), []) :=
+  powi_bigint_eq one recip pow c e
+
+theorem src_powi_bigrational {α : Type} (one : α) (recip : α → α) (pow : α → Nat → α) (c : α) (e : Int) :
+    run (envPowi one recip pow) lib_ConversionFactor_V_for_V_powi_BigRational [.host c, .int e] =
+      (.val (.host (if e = 0 then one else if e < 0 then pow (recip c) (-e).toNat else pow c e.toNat)), []) :=
+  powi_bigrational_eq one recip pow c e
+
+/-- over ℚ, with `pow` the natural power and `recip` the inverse, that dispatch is the integer power `c ^ e` -/
+theorem src_powi_rat_is_zpow (c : Rat) (e : Int) :
+    (if e = 0 then (1 : Rat) else if e < 0 then (c⁻¹) ^ (-e).toNat else c ^ e.toNat) = ratPowi c e := by
+  unfold ratPowi
+  rcases Int.lt_trichotomy e 0 with h | h | h
+  · have h0 : e ≠ 0 := by omega
+    simp only [h0, h, if_true, if_false]
+    obtain ⟨n, rfl⟩ : ∃ n : Nat, e = -(n : Int) := ⟨(-e).toNat, by omega⟩
+    simp [zpow_neg, inv_pow]
+  · subst h; simp
+  · have h0 : e ≠ 0 := by omega
+    have h1 : ¬ e < 0 := by omega
+    simp only [h0, h1, if_false]
+    obtain ⟨n, rfl⟩ : ∃ n : Nat, e = (n : Int) := ⟨e.toNat, by omega⟩
+    simp
+
+end SourceTieRx
 
 end Uom.C08
